@@ -169,6 +169,61 @@ def r22_5(ctx, rep):
     delay_element_correspondence(ctx, rep, "R22.5")
 
 
+@SPEC.rule(
+    "R22.6",
+    "durations are rewritten like delayed expressions: every return of Model._substitute_delay_arguments (other than for an empty "
+    "argument list) passes a ca.substitute of the expressions and one of the durations, both with the symbols and values it was given — "
+    "if those are narrowed first, the narrowing looks at the durations as well as at the expressions. A duration that keeps a symbol some "
+    "pass has eliminated is checked (and later evaluated) against a variable that no longer exists",
+)
+def r22_6(ctx, rep):
+    from ..cfg import CFG
+    from ..pyutil import inlined
+    R = "R22.6"
+    fn = ctx.func(MODEL, "Model._substitute_delay_arguments", R)
+    site = MODEL + ":Model._substitute_delay_arguments"
+    params = [a.arg for a in fn.args.args]
+    if len(params) < 4:
+        raise MechanismMissing(R, "_substitute_delay_arguments(self, delay_arguments, symbols, values) signature changed")
+    dargs, syms, vals = params[1], params[2], params[3]
+    cfg = CFG(fn, R)
+    body = [st for st in ast.walk(fn) if isinstance(st, ast.stmt)]
+    subs = []
+    for x in cfg.stmts():
+        for c in calls(x.ast):
+            if (call_name(c) or "").endswith("substitute") and len(c.args) == 3:
+                what = norm(inlined(c.args[0], body, keep={dargs}))
+                if isinstance(c.args[0], ast.Name) and ".expr" not in what and ".duration" not in what:
+                    # a list that is built first and substituted in place afterwards: look at every binding of the name
+                    what = " ".join(norm(st.value) for st in body if isinstance(st, ast.Assign) and any(is_name(t, c.args[0].id) for t in st.targets))
+                kind = "durations" if ".duration" in what else ("expressions" if ".expr" in what else None)
+                if kind:
+                    subs.append((kind, x, c))
+    kinds = {k for k, _x, _c in subs}
+    if kinds != {"durations", "expressions"}:
+        rep.ob(R, site, "both the delayed expressions and the durations are substituted", False, "found substitution of %s only" % sorted(kinds))
+        return
+    rets = [x for x in cfg.stmts() if isinstance(x.ast, ast.Return)]
+    for kind in ("expressions", "durations"):
+        nodes = {x.id for k, x, _c in subs if k == kind}
+        bad = None
+        for r in rets:
+            # a return taken because there is nothing to substitute in (empty list of delay arguments) is fine
+            doms = cfg.dominated_by(r.id, lambda y: y.kind == "assume")
+            if any(norm(g.ast).replace(" ", "") in ("not%s" % dargs, "len(%s)==0" % dargs, dargs) and ((not g.taken) == (norm(g.ast) == dargs)) for g in doms):
+                continue
+            bad = bad or cfg.must_pass(cfg.entry, r.id, nodes)
+        rep.ob(R, site, "every return passes the substitution of the " + kind, bad is None,
+               "the method can return without substituting the %s: a pass that eliminates a symbol occurring there leaves it behind" % kind,
+               path=cfg.describe(bad) if bad else "")
+    # narrowing of (symbols, values)
+    rebinds = [st for st in body if isinstance(st, ast.Assign) and any(isinstance(t, ast.Name) and t.id in (syms, vals) for tt in st.targets for t in ast.walk(tt))]
+    for st in rebinds:
+        v = norm(inlined(st.value, body, keep={dargs, syms, vals}))
+        rep.ob(R, site, "narrowing `%s` considers expressions and durations" % norm(st)[:50], ".expr" in v and ".duration" in v,
+               "the symbols to substitute are narrowed by looking at %s only" % ("the delayed expressions" if ".expr" in v else "something else than the delay arguments"))
+
+
 # -- seeded variants ---------------------------------------------------------
 from ._mut import delete_stmt_where, replace_in_func  # noqa: E402
 
@@ -217,3 +272,12 @@ def _m5(mod):
         return False
 
     return mod if replace_in_func(mod, "Model._post_checks", edit) else None
+
+
+@SPEC.mutant("substitutions narrowed to the symbols of the delayed expressions", MODEL, "R22.6", "substitution of the")
+def _m_narrow(mod):
+    def edit(fn):
+        fn.body.insert(0, ast.parse("if not [s for s in symbols if any(ca.depends_on(ca.MX(a.expr), s) for a in delay_arguments)]:\n    return delay_arguments").body[0])
+        return True
+
+    return mod if replace_in_func(mod, "Model._substitute_delay_arguments", edit) else None
